@@ -40,31 +40,18 @@ def be32(b, o):
 
 # ====================================================================================== concretisation of an abstract case
 def make_dcd(n, r):
-    """A DCD of exactly n bytes: header + one Write Data command (+ NOP).  Values keep clear of what SPSDK's application
-    finder / XMCD finder could mistake for a reset vector or an XMCD tag (assumption, see run())."""
+    """A DCD of exactly n bytes: header, one Write Data command, NOPs.  The most significant byte of every value is even so that
+    no word can imitate a Thumb reset vector for SPSDK's heuristic application finder (assumption, see run())."""
     assert n % 4 == 0 and n >= 12
+    rest = n - 4
+    z = 0 if (rest - 4) % 8 == 0 else 1
+    k = (rest - 4 * z - 4) // 8
     body = b""
-    left = n - 4
-    if left % 8 == 4:  # a NOP makes the rest a multiple of 8 (cmd header 4 + k*8)
-        body += bytes([0xC0, 0x00, 0x04, 0x00])
-        left -= 4
-    if left >= 12:
-        if left % 8 == 0:
-            body += bytes([0xC0, 0x00, 0x04, 0x00])
-            left -= 4
-            body += bytes([0xC0, 0x00, 0x04, 0x00]) if left % 8 == 0 else b""
-            left -= 4 if left % 8 == 0 else 0
-        k = (left - 4) // 8
-        cmd = bytes([0xCC]) + struct.pack(">H", 4 + 8 * k) + bytes([0x04])
+    if k >= 1:
+        body = bytes([0xCC]) + struct.pack(">H", 4 + 8 * k) + bytes([0x04])
         for _ in range(k):
-            addr = 0x400A0000 + 4 * r.randrange(0, 0x1000)
-            val = (r.randrange(0, 0x40) << 25) | (r.getrandbits(17) << 7) | r.randrange(0, 0x40)
-            cmd += struct.pack(">II", addr, val & 0xFFFFFF7F)
-        body += cmd
-        left -= len(cmd)
-    while left > 0:
-        body += bytes([0xC0, 0x00, 0x04, 0x00])
-        left -= 4
+            body += struct.pack(">II", 0x400A0000 + 4 * r.randrange(0, 0x1000), (r.randrange(0, 0x40) << 25) | r.getrandbits(24))
+    body += bytes([0xC0, 0x00, 0x04, 0x00]) * ((rest - len(body)) // 4)
     out = bytes([0xD2]) + struct.pack(">H", n) + bytes([0x41]) + body
     assert len(out) == n, (len(out), n)
     return out
@@ -227,7 +214,7 @@ def concretise(c, wd):
             if c["reuseDek"]:
                 with open(ctx["dek_path"], "wb") as f:
                     f.write(bytes(r.randrange(256) for _ in range(c["dekLen"])))
-            sec("SecretKey", SecretKey_Name="dek.bin", SecretKey_Length=c["dekLen"] * 8, SecretKey_VerifyIndex=r.randrange(0, 4),
+            sec("SecretKey", SecretKey_Name="dek.bin", SecretKey_Length=c["dekLen"] * 8, SecretKey_VerifyIndex=r.choice([0, 2, 3]),
                 SecretKey_TargetIndex=r.randrange(0, 4), SecretKey_ReuseDek=1 if c["reuseDek"] else 0)
             tgt = sections[-1]["options"][3]["SecretKey_TargetIndex"]
             dk = {"Decrypt_Engine": "ANY", "Decrypt_EngineConfiguration": "0", "Decrypt_VerifyIndex": tgt, "Decrypt_MacBytes": c["macLen"]}
@@ -577,7 +564,26 @@ def _walk(d, ctx, ev, reg):
             ev.append({"ev": "Cmd", "at": o, "tag": tag, "len": ln, "par": par})
         o += ln
     ev.append({"ev": "CsfEnd", "at": o})
-    ev.append({"ev": "Accept"})
+    ev.append({"ev": "Accept", "note": accept_note(ev, reg, inp, base)})
+
+
+def accept_note(ev, reg, inp, base):
+    """Informational only (names the finding class when TLC rejects the Accept step; the spec does not read it)."""
+    cov = []
+    for e in ev:
+        if e["ev"] == "Authenticate":
+            cov += [(((b["a"][0] << 16) | b["a"][1]) - base, ((b["a"][0] << 16) | b["a"][1]) - base + b["n"]) for b in e["blocks"]]
+    miss = []
+    for name in ("ivt", "bd", "cfg", "app", "encapp"):
+        for a, b in reg.get(name, []):
+            pts = sorted({a} | {p for iv in cov for p in iv if a < p < b})
+            if not all(any(x <= p < y for x, y in cov) for p in pts):
+                miss.append(name)
+    if inp["flags"] == "enc" and "encapp" in reg:
+        aa = inp["ils"] - inp["ivtOff"]
+        if not any(a <= aa and aa + inp["appLen"] <= b for a, b in reg["encapp"]):
+            miss.append("app")
+    return "uncovered-" + "-".join(sorted(set(miss))) if miss else "bootlen-or-overlap"
 
 
 def parse_back(d, ctx):
@@ -647,6 +653,17 @@ def run_case(arg):
     return out
 
 
+def preload():
+    """Import everything the forked workers need once, in the parent."""
+    import asn1crypto.cms  # noqa: F401
+    import asn1crypto.x509  # noqa: F401
+    import cryptography.hazmat.primitives.ciphers.aead  # noqa: F401
+    import cryptography.x509  # noqa: F401
+    import spsdk.crypto.signature_provider  # noqa: F401
+    import spsdk.image.hab.hab_container  # noqa: F401
+    import spsdk.utils.images  # noqa: F401
+
+
 def gen_cases(tier):
     env = {"GEN_SEED": seed() % 100000, "GEN_FULL": 0 if tier == "quick" else 1, "GEN_REPS": 1 if tier == "quick" else 2}
     r = tlc.run("C07", "HabGen", workers=1 if tier == "quick" else 4, env=env, timeout=600, heap="4g")
@@ -666,6 +683,8 @@ def hint(e):
         return e.get("exc", "?")
     if e.get("ev") == "Stop":
         return "executor-stopped"
+    if e.get("ev") == "Accept":
+        return e.get("note", "structure")
     return "+".join(sorted(bad)) if bad else "structure"
 
 
@@ -696,6 +715,7 @@ def canary(traces):
                  and t["ev"][-1].get("ok") and "/t/" not in t["id"]), None)
     if good is None:
         raise Machinery("no authenticated trace with DCD/XMCD available for the canary")
+    good = dict(good, inp=dict(good["inp"], waive=[]))
     batch = [{"id": "good", "inp": good["inp"], "ev": good["ev"]}]
     for i, (evn, fld, fn) in enumerate(CANARY_FIELDS):
         ev = json.loads(json.dumps(good["ev"]))
@@ -715,31 +735,48 @@ def strip(t):
     return {"id": t["id"], "inp": t["inp"], "ev": t["ev"]}
 
 
+WAIVERS = [("C07/*/Xmcd/match/*", "xmcdMatch"), ("C07/*/Accept/uncovered-cfg/*", "cfgCoverage")]
+
+
 def decide(v, traces):
-    """TLC decides every trace. Returns (#accepted untampered, #tamper rejected, #tamper total)."""
-    rej, res = tlc.tv("C07", "HabRomTrace", [strip(t) for t in traces], heap="8g", timeout=1500)
-    v.traces(len(traces))
-    by_id = {t["id"]: t for t in traces}
-    main_rejected = set()
-    n_ok = n_t = n_trej = 0
+    """TLC decides every trace.  A main trace rejected under a KNOWN finding key that has a waiver is validated again with that one
+    clause waived (HabRom.tla, inp.waive) so that the known defect does not hide later steps; tampered copies are judged only
+    for originals accepted without any waiver.  Returns (#accepted, #accepted after waiver, #tamper rejected, #tamper total)."""
+    import fnmatch
+
     for t in traces:
-        if "/t/" in t["id"]:
-            continue
-        if t["id"] in rej:
-            main_rejected.add(t["id"])
-            matched, ln, evn = rej[t["id"]]
+        t["inp"]["waive"] = []
+    mains = [t for t in traces if "/t/" not in t["id"]]
+    tampers = [t for t in traces if "/t/" in t["id"]]
+    rej, _ = tlc.tv("C07", "HabRomTrace", [strip(t) for t in traces], heap="8g", timeout=1500)
+    v.traces(len(traces))
+    clean = {t["id"] for t in mains if t["id"] not in rej}
+    for tid in clean:
+        v.nontrivial(tid)
+    n_waived_ok = 0
+    todo = [(t, rej[t["id"]]) for t in mains if t["id"] in rej]
+    for _round in range(3):
+        again = []
+        for t, (matched, ln, evn) in todo:
             key = finding_key(t, matched)
             e = t["ev"][matched] if matched < ln else {}
-            v.violation(key, f"R-spec rejects step {matched + 1}/{ln} ({evn}) of the image built for {json.dumps(t['meta']['case'])[:300]}: {json.dumps(e)[:400]}",
-                        {"case": t["meta"]["case"], "rejected_at": matched, "event": e, "trace": t["ev"], "inp": t["inp"]})
-        else:
-            n_ok += 1
-            v.nontrivial(t["id"])
+            new = v.violation(key, f"R-spec rejects step {matched + 1}/{ln} ({evn}) of the image built for {json.dumps(t['meta']['case'])[:300]}: {json.dumps(e)[:400]}",
+                              {"case": t["meta"]["case"], "rejected_at": matched, "event": e, "trace": t["ev"], "inp": t["inp"]})
+            w = next((w for pat, w in WAIVERS if fnmatch.fnmatchcase(key, pat)), None)
+            if not new and w and w not in t["inp"]["waive"]:
+                t2 = dict(t)
+                t2["inp"] = dict(t["inp"], waive=t["inp"]["waive"] + [w])
+                again.append(t2)
+        if not again:
+            break
+        rej2, _ = tlc.tv("C07", "HabRomTrace", [strip(t) for t in again], heap="8g", timeout=1500)
+        v.traces(len(again))
+        n_waived_ok += sum(1 for t in again if t["id"] not in rej2)
+        todo = [(t, rej2[t["id"]]) for t in again if t["id"] in rej2]
+    n_t = n_trej = 0
     accepted_tampers = []
-    for t in traces:
-        if "/t/" not in t["id"]:
-            continue
-        if t["id"].split("/t/")[0] in main_rejected:
+    for t in tampers:
+        if t["id"].split("/t/")[0] not in clean:
             continue
         n_t += 1
         if t["id"] in rej:
@@ -747,8 +784,8 @@ def decide(v, traces):
         else:
             accepted_tampers.append(t["id"])
     if accepted_tampers:
-        raise Machinery(f"acceptance automaton accepted {len(accepted_tampers)} tampered images of accepted originals: {accepted_tampers[:5]}")
-    return n_ok, n_trej, n_t, by_id
+        raise Machinery(f"acceptance automaton accepted {len(accepted_tampers)} tampered copies of accepted images: {accepted_tampers[:5]}")
+    return len(clean), n_waived_ok, n_trej, n_t
 
 
 def run(tier):
@@ -756,6 +793,7 @@ def run(tier):
     hab_keys.ensure()
     v = Verdict(PROP, tier)
     db_lays()
+    preload()
 
     # ---- MC: automaton + documented layout in small scope
     acts = ["DoParseIvt", "DoBootData", "DoDcd", "DoXmcd", "DoApp", "DoCsfHeader", "DoInstallSrk", "DoInstallCsfk", "DoAuthenticateCsf",
@@ -773,18 +811,22 @@ def run(tier):
     n_t = 1 if tier == "quick" else 3
     every = 6 if tier == "quick" else 4
     args = [(c, n_t if (c["flags"] != "plain" and c["id"] % every == 0) else 0) for c in cases]
+    t0 = v.timer.s()
     res = pmap(run_case, args, chunksize=4)
     traces = [t for group in res for t in group]
     v.count(len(traces))
-    say(f"[C07] executed {len(cases)} builds, {len(traces) - len(cases)} tampered copies")
+    say(f"[C07] executed {len(cases)} builds, {len(traces) - len(cases)} tampered copies ({v.timer.s() - t0:.1f}s)")
 
     v.extra["canary"] = canary(traces)
-    n_ok, n_trej, n_tt, _ = decide(v, traces)
+    n_ok, n_wok, n_trej, n_tt = decide(v, traces)
     v.extra["tamper_rejected"] = f"{n_trej}/{n_tt}"
     v.extra["accepted_untampered"] = n_ok
+    v.extra["accepted_with_known_clause_waived"] = n_wok
     for t in traces[:400:97]:
         v.sample({"id": t["id"], "inp": t["inp"], "ev": [{k: (x if not isinstance(x, list) or len(x) < 6 else x[:6]) for k, x in e.items()} for e in t["ev"]][:8]})
-    say(f"[C07] TV HabRomTrace: {n_ok}/{len(cases)} untampered images accepted, {n_trej}/{n_tt} tampered images rejected")
+    say(f"[C07] TV done at {v.timer.s():.1f}s")
+    say(f"[C07] TV HabRomTrace: {n_ok}/{len(cases)} untampered images accepted (+{n_wok} with a known-finding clause waived), "
+        f"{n_trej}/{n_tt} tampered images rejected")
     v.cov["rule"] = ("cases = states of HabGen (layout class x application size around the 4 KiB / 16-byte boundaries x plain/auth/enc x "
                      "none/DCD/XMCD, secondary dimensions spread by index); one evaluation = one image built by HabContainer.load_from_config "
                      "and walked by the executor (or one single-bit tampered copy); a case is non-trivial if TLC accepted its whole trace "
@@ -809,6 +851,8 @@ def replay(path):
     db_lays()
     w = json.load(open(path))["witness"]
     traces = run_case((w["case"], 0))
+    for t in traces:
+        t["inp"]["waive"] = []
     rej, _ = tlc.tv("C07", "HabRomTrace", [strip(t) for t in traces])
     for t in traces:
         say(json.dumps({"id": t["id"], "ev": t["ev"]})[:3000])
